@@ -74,6 +74,16 @@ func (g *Gen) ProposalVoteBurst() []txgen.Tx {
 		return []txgen.Tx{g.ProposalCreate()}
 	}
 	p := w.Props[len(w.Props)-1]
+	if !w.PropVoting(p.ID) && w.PropFunding(p.ID) {
+		return []txgen.Tx{g.ProposalFund()}
+	}
+	// prefer a proposal that is in voting status now
+	for i := len(w.Props) - 1; i >= 0 && i >= len(w.Props)-4; i-- {
+		if w.PropVoting(w.Props[i].ID) {
+			p = w.Props[i]
+			break
+		}
+	}
 	var out []txgen.Tx
 	op := rapid.SampledFrom([]int{1, 1, 1, 2}).Draw(g.T, "pburst-op")
 	for _, vi := range w.ActiveValIdx() {
